@@ -1,4 +1,4 @@
-import Rustic.Lemmas.CommandTable
+import Rustic.Lemmas.CommandTableConfig
 import Rustic.Gen.RepositoryApi
 /-
 C15 — Append-only and dry-run modes never remove or overwrite stored data.
@@ -51,7 +51,10 @@ theorem destructive_refused_before_storage (hc : Bool) (cmd : Cmd) (ops : List O
     cases fg
     · cases d <;> (cases h; simp [dataWrites, Op.isProtectedRemoval] at hd)
     · exact ⟨_, rfl⟩
-  | applyConfig c => cases c <;> (cases h; simp [Op.isProtectedRemoval] at hd)
+  | applyConfig c =>
+    cases c with
+    | rejected sao why => simp [run] at h
+    | _ => cases h; simp [Op.isProtectedRemoval] at hd
   | addKey => cases h; simp [Op.isProtectedRemoval] at hd
   | deleteKey => cases h; simp [Op.isProtectedRemoval] at hd
   | copyInto => cases h; simp [dataWrites, Op.isProtectedRemoval] at hd
@@ -73,10 +76,21 @@ theorem destructive_commands_table (hc : Bool) :
     (∀ d, run hc true (.repairSnapshots true d) = .refused .appendOnly) ∧
     (∀ d, run hc true (.rewriteSnapshots true d) = .refused .appendOnly) ∧
     (∀ d, run hc true (.rewriteTrees true d) = .refused .appendOnly) ∧
-    (∀ c, c ≠ .setAppendOnly false → run hc true (.applyConfig c) = .refused .appendOnly) := by
-  refine ⟨rfl, rfl, fun _ => rfl, fun _ => rfl, fun _ => rfl, fun _ => rfl, ?_⟩
-  intro c hne
-  simp [run, hne]
+    (∀ c, c ≠ .setAppendOnly false → (∀ why, c ≠ .rejected (some false) why) →
+      run hc true (.applyConfig c) = .refused .appendOnly) ∧
+    -- options that fail validation are refused whatever the flag says (guard first, then the validation error)
+    (∀ ao sao why, ∃ e, run hc ao (.applyConfig (.rejected sao why)) = .refused e) := by
+  refine ⟨rfl, rfl, fun _ => rfl, fun _ => rfl, fun _ => rfl, fun _ => rfl, ?_, ?_⟩
+  · intro c hne hrej
+    cases c with
+    | setAppendOnly b => cases b <;> simp_all [run]
+    | other ch => simp [run]
+    | rejected sao why =>
+      have : sao ≠ some false := fun h => hrej why (by rw [h])
+      simp [run, this]
+  · intro ao sao why
+    simp only [run]
+    split <;> exact ⟨_, rfl⟩
 
 /-- A command run with its dry-run flag performs no write and no removal at all (or is refused). -/
 theorem dry_run_no_ops (hc appendOnly : Bool) (cmd : Cmd) (h : cmd.isDryRun = true) :
@@ -112,11 +126,90 @@ theorem append_only_left_only_by_config (s : State) (e : Exec) (hao : s.appendOn
       · exact .inl rfl
       · simp [hc, run, hao] at h
     | other ch => simp [hc, run, hao] at h
+    | rejected sao why => simp [hc, run, hao] at h
   | initWithConfig b =>
     cases b
     · exact .inr rfl
     · simp [hc, run] at h
   | _ => simp [hc, hao] at h
+
+/-! ### refused commands — in particular refused config changes — change nothing, not even the handle's view -/
+
+/-- A command the table refuses, executed conformingly, leaves the state exactly as it was: no file changes and the
+append-only flag the handle's guards read is the one before. -/
+theorem refused_command_changes_nothing (s : State) (e : Exec) (err : ErrKind)
+    (hr : run s.hotCold s.appendOnly e.cmd = .refused err) (hconf : conforms s e = true) :
+    (step s e).appendOnly = s.appendOnly ∧ (step s e).files = s.files := by
+  simp only [conforms, hr, List.isEmpty_iff] at hconf
+  simp only [step, hr, hconf, List.foldl_nil, and_true]
+  split <;> simp_all
+
+/-- A config change that `apply_config` refuses because an option fails validation inside `ConfigOptions::apply` — alone
+or TOGETHER with `set_append_only(false)` — is refused in every state, and afterwards every command of the table has
+the outcome it had before: on an append-only repository every destructive command is still refused.  (The code
+obtains this by applying the options to a clone of the handle's config; `Rustic.Config.applyConfigH`,
+`handle_flag_is_table_flag` below.) -/
+theorem rejected_config_change_keeps_every_guard (s : State) (sao : Option Bool) (why : Rejection) (ops : List ConcreteOp) :
+    (∃ err, run s.hotCold s.appendOnly (.applyConfig (.rejected sao why)) = .refused err) ∧
+    ∀ cmd, run s.hotCold (step s ⟨.applyConfig (.rejected sao why), ops⟩).appendOnly cmd = run s.hotCold s.appendOnly cmd := by
+  have hrun : ∃ err, run s.hotCold s.appendOnly (.applyConfig (.rejected sao why)) = .refused err := by
+    simp only [run]; split <;> exact ⟨_, rfl⟩
+  refine ⟨hrun, fun cmd => ?_⟩
+  obtain ⟨err, he⟩ := hrun
+  have : (step s ⟨.applyConfig (.rejected sao why), ops⟩).appendOnly = s.appendOnly := by
+    simp only [step]
+  rw [this]
+
+/-- every command of the history conforms to the table (in the state it is issued in). -/
+def AllConform (s : State) : List Exec → Prop
+  | [] => True
+  | e :: es => conforms s e = true ∧ AllConform (step s e) es
+
+instance decAllConform : (s : State) → (es : List Exec) → Decidable (AllConform s es)
+  | _, [] => isTrue trivial
+  | s, e :: es =>
+    have := decAllConform (step s e) es
+    by unfold AllConform; infer_instance
+
+/-- The premise "append-only before each command" of `append_only_history_keeps_files` is DERIVED for every conforming
+history that contains neither an `apply_config(set_append_only = false)` that passes validation nor an
+`init_with_config` with the flag off — whatever else it contains: refused commands, config changes rejected by a
+validation even when they carry `set_append_only(false)` (`.rejected (some false) _`), key changes, re-arming …
+Hence on such a history (any length) every snapshot / index / pack file present at the start survives. -/
+theorem append_only_persists_without_disarm (es : List Exec) (s : State) (hao : s.appendOnly = true)
+    (hn : ∀ e ∈ es, e.cmd ≠ .applyConfig (.setAppendOnly false) ∧ e.cmd ≠ .initWithConfig false)
+    (hc : AllConform s es) : AllAppendOnly s es := by
+  induction es generalizing s with
+  | nil => trivial
+  | cons e es ih =>
+    obtain ⟨hce, hrest⟩ := hc
+    refine ⟨hao, hce, ih (step s e) ?_ (fun e' he' => hn e' (List.mem_cons_of_mem _ he')) hrest⟩
+    cases hs : (step s e).appendOnly with
+    | true => rfl
+    | false =>
+      have := append_only_left_only_by_config s e hao hs
+      have hne := hn e (by simp)
+      rcases this with h | h
+      · exact absurd h hne.1
+      · exact absurd h hne.2
+
+theorem files_survive_without_disarm (es : List Exec) (s : State) (hao : s.appendOnly = true)
+    (hn : ∀ e ∈ es, e.cmd ≠ .applyConfig (.setAppendOnly false) ∧ e.cmd ≠ .initWithConfig false)
+    (hc : AllConform s es) (f : File) (hf : f ∈ s.files) (hp : f.isProtected = true) : f ∈ (es.foldl step s).files :=
+  history_keeps es s (append_only_persists_without_disarm es s hao hn hc) f hf hp
+
+/-- The table's single flag IS the handle's in-memory flag: for every in-memory config, stored config and options,
+the config model of `apply_config` on the handle (`Rustic.Config.applyConfigH`: guard on the in-memory copy, options
+applied to a clone) is refused exactly when the table refuses the classified change, and the append-only flag of
+the handle's in-memory config afterwards is the flag of the table's next state.  In particular (first theorem above)
+`Err` ⇒ the in-memory config — hence every guard of that handle — is unchanged. -/
+theorem handle_flag_is_table_flag (mem : Rustic.Config.ConfigFile) (st : Rustic.Config.Store)
+    (o : Rustic.Config.ConfigOptions) (hc : Bool) (files : List File) (ops : List ConcreteOp) :
+    ((∃ err, (Rustic.Config.applyConfigH mem st o).2.2 = .error err) ↔
+      ∃ k, run hc (flagOf mem) (.applyConfig (classify mem o)) = .refused k) ∧
+    flagOf (Rustic.Config.applyConfigH mem st o).1 =
+      (step ⟨flagOf mem, files, hc⟩ ⟨.applyConfig (classify mem o), ops⟩).appendOnly :=
+  applyConfigH_flag_is_table_flag mem st o hc files ops
 
 /-- The harness tokens: what the traffic check expects is a refusal exactly where the table refuses. -/
 def aoTokens : List String :=
@@ -128,6 +221,16 @@ def aoTokens : List String :=
    "merge", "merge.delete", "config.tg", "config.ev", "config.none", "config.ao1", "config.ao0", "key.add", "key.del",
    "check", "restore", "readonly", "restore.plan", "restore.plan.dry", "hotcold", "hotcold.packs", "hotcold.dry",
    "hotcold.packs.dry", "copy", "init", "reinit", "init_hot"]
+
+/-- the tokens of config changes that `ConfigOptions::apply` rejects (every rejectable option × with
+`set_append_only(false)` / `(true)` / without). -/
+def rejectedTokens : List String :=
+  ["config.ao0.xver", "config.ao0.xchunk", "config.ao0.xcomp", "config.ao0.xtsize", "config.ao0.xtlimit",
+   "config.ao0.xdsize", "config.ao0.xdlimit", "config.ao0.xminpct", "config.ao0.xmaxpct", "config.ao1.xver",
+   "config.ao1.xchunk", "config.ao1.xcomp", "config.ao1.xtsize", "config.ao1.xtlimit", "config.ao1.xdsize",
+   "config.ao1.xdlimit", "config.ao1.xminpct", "config.ao1.xmaxpct", "config.tg.xver", "config.tg.xchunk",
+   "config.tg.xcomp", "config.tg.xtsize", "config.tg.xtlimit", "config.tg.xdsize", "config.tg.xdlimit",
+   "config.tg.xminpct", "config.tg.xmaxpct"]
 
 /-- the storage operations behind a shown kinds string (`*` = not compared). -/
 def kindsOps : String → Option (List Op)
@@ -144,6 +247,9 @@ def errToken : ErrKind → String
   | .appendOnly => "err:AppendOnly"
   | .repository => "err:Repository"
   | .configuration => "err:Configuration"
+  | .validation .unsupported => "err:Unsupported"
+  | .validation .invalidInput => "err:InvalidInput"
+  | .validation .internal => "err:Internal"
 
 /-- the rows of a token are run in order; the first refusal is the result and everything shown was issued by the
 rows before it; without refusal the result is `ok` (`skip`: nothing to delete) and every shown kind is allowed. -/
@@ -163,6 +269,17 @@ def refusalAgrees (hc ao : Bool) (tok : String) : Bool :=
   | _, _ => false
 
 theorem expected_agrees_with_table : ∀ hc ao, aoTokens.all (refusalAgrees hc ao) = true := by
+  decide
+
+/-- … and for the 27 rejected config changes: refused (guard first, then the validation error), nothing shown, and the
+scenario state — in particular the append-only flag — is the one before. -/
+theorem expected_rejected_config_agrees : ∀ hc ao, rejectedTokens.all (fun tok =>
+    refusalAgrees hc ao tok &&
+    (match cmdOfToken tok, expected { appendOnly := ao, hotCold := hc } tok with
+     | some (.applyConfig (.rejected _ _)), some (res, kinds, s') =>
+       (res == "err:AppendOnly" || res == "err:Unsupported" || res == "err:Internal" || res == "err:InvalidInput") &&
+       kinds == "-" && s'.appendOnly == ao
+     | _, _ => false)) = true := by
   decide
 
 /-! ### the table is complete for the current source (API tie, regenerated on every check) -/
@@ -236,6 +353,18 @@ theorem every_dry_flag_has_effective_twin :
 
 /-! ### non-vacuity -/
 example : run false true .prune = .refused .appendOnly := rfl
+example : run false true (.applyConfig (.rejected (some false) .invalidInput)) = .refused (.validation .invalidInput) := rfl
+example : run false true (.applyConfig (.rejected (some true) .invalidInput)) = .refused .appendOnly := rfl
+/-- the seeded change C15-1 as a table history: rejected `set_append_only(false)` + bad percent, then forget — still refused -/
+example : run false (step ⟨true, [⟨.snapshot, 1⟩], false⟩ ⟨.applyConfig (.rejected (some false) .invalidInput), []⟩).appendOnly
+    .deleteSnapshots = .refused .repository := rfl
+/-- a history with a rejected `set_append_only(false)` in front of every destructive command: the files survive -/
+example : AllConform ⟨true, [⟨.snapshot, 1⟩, ⟨.pack, 2⟩], false⟩
+    [⟨.applyConfig (.rejected (some false) .invalidInput), []⟩, ⟨.deleteSnapshots, []⟩,
+     ⟨.applyConfig (.rejected (some false) .internal), []⟩, ⟨.prune, []⟩, ⟨.backup false, [.write ⟨.snapshot, 3⟩]⟩] := by
+  decide
+example : classify { Rustic.Config.ConfigFile.new 2 7 9 with appendOnly := some true }
+    { setAppendOnly := some false, setMinPackPct := some 200 } = .rejected (some false) .invalidInput := by decide
 example : run true false .prune = .runs [.write .pack, .write .index, .remove .index, .remove .pack] := rfl
 example : run true true (.repairHotcold false) = .runs hotcoldCopies := rfl
 example : "merge_snapshots" ∈ tableMethods ∧ "get_all_snapshots" ∈ tableMethods ∧ "frobnicate" ∉ tableMethods := by decide
